@@ -632,7 +632,9 @@ def _length_shapes(tier):
            # a sub-range was evaluated before the length is asked for: the length is still that of the whole curve
            dict(p=1, n=3, samples=3, net='sym', partial=True), dict(p=2, n=4, samples=4, net='lattice', partial=True),
            # a knot vector kept as given on [1, 4] (normalize_kv=False)
-           dict(p=1, n=3, samples=3, net='sym', shift=True), dict(p=2, n=4, samples=3, net='lattice', shift=True)]
+           dict(p=1, n=3, samples=3, net='sym', shift=True), dict(p=2, n=4, samples=3, net='lattice', shift=True),
+           # unclamped knot vectors: the length is that of the curve over its parametric domain
+           dict(p=2, n=4, samples=3, net='lattice', clamped=False), dict(p=1, n=3, samples=3, net='sym', clamped=False)]
     if tier == 'thorough':
         out += [dict(p=2, n=3, samples=4, net='sym'), dict(p=1, n=4, samples=4, net='sym'), dict(p=2, n=4, samples=3, net='sym'),
                 dict(p=1, n=6, samples=6, net='lattice')]
@@ -641,13 +643,15 @@ def _length_shapes(tier):
 
 @scenario('C18', fns=['operations.length_curve', 'linalg.point_distance', 'abstract.Curve.evalpts'],
           quick=lambda: _length_shapes('quick'), thorough=lambda: _length_shapes('thorough'))
-def length(ctx, p, n, samples, net, partial=False, shift=False):
+def length(ctx, p, n, samples, net, partial=False, shift=False, clamped=True):
     """requires: non-rational clamped curve, uniform concrete knots, `samples` evaluated points;
                  net='sym': one symbolic coordinate per control point, 'lattice': control polygon with rational steps
        ensures : length_curve == sum of |evalpts[i+1] - evalpts[i]|  >=  |evalpts[-1] - evalpts[0]| = |P[-1] - P[0]|;
                  a non-curve is rejected.  (The upper bound by the control polygon is excluded, see module docstring.)"""
     ops = ctx.geomdl('operations')
     U = [ctx.lit(1 + 3 * k if shift else k) for k in _uniform_kv(p, n)]
+    if not clamped:
+        U = [ctx.lit(Fraction(i, n + p)) for i in range(n + p + 1)]      # unclamped uniform: the domain is [U[p], U[n]]
     if net == 'sym':
         P = shapes.net(ctx, 'P', n, 2)
     else:
@@ -667,9 +671,14 @@ def length(ctx, p, n, samples, net, partial=False, shift=False):
         return _sqrt(ctx, _total((x - y) * (x - y) for x, y in zip(a, b)))
 
     ctx.check_eq('length=polyline', L, _total(dist(pts[i], pts[i + 1]) for i in range(samples - 1)))
-    ctx.check_eq_vec('start=P[0]', pts[0], P[0])
-    ctx.check_eq_vec('end=P[-1]', pts[-1], P[-1])
-    chord = dist(P[0], P[-1])
+    if clamped:
+        ctx.check_eq_vec('start=P[0]', pts[0], P[0])
+        ctx.check_eq_vec('end=P[-1]', pts[-1], P[-1])
+        chord = dist(P[0], P[-1])
+    else:       # the polyline runs over the parametric domain [U[p], U[n]]: from C(U[p]) to C(U[n])
+        ctx.check_eq_vec('start=C(domain start)', pts[0], crv.evaluate_single(U[p]))
+        ctx.check_eq_vec('end=C(domain end)', pts[-1], crv.evaluate_single(U[n]))
+        chord = dist(crv.evaluate_single(U[p]), crv.evaluate_single(U[n]))
     ctx.check_eq('chord=|evalpts[-1]-evalpts[0]|', dist(pts[0], pts[-1]), chord)
     ctx.check('length>=0', ctx.ge(L, 0))
     # triangle inequality, one vertex at a time: t_k = |evalpts[k] - evalpts[0]| <= t_(k-1) + |evalpts[k] - evalpts[k-1]|
